@@ -1511,3 +1511,45 @@ func SpecSegRight(seg *memorySegment) int64 { panic("abstract spec function") }
 //@ func RedisOutput.observeCommittedUnit(self, unit)
 //@   trusted frame: gauges
 //@   modifies nothing
+
+// ---- disk cache behind a channel: the answers are about the history the cache is labelled with ----
+//   stId / stLatest  the id the store is labelled with / its latest offset (ghosts: what Storer.RunId and
+//   Storer.LatestOffset answer; VerifyRunId may open the cache under another of the ids asked)
+//@ func store.Storer.RunId(self) (id)
+//@   trusted abstract disk cache
+//@   ghost var stId string
+//@   modifies nothing
+//@   ensures label: id == stId
+//@ func store.Storer.LatestOffset(self) (off)
+//@   trusted abstract disk cache
+//@   ghost var stLatest mathint
+//@   modifies nothing
+//@   ensures latest: off == stLatest
+//@ func store.Storer.IsValidOffset(self, offset) (r)
+//@   trusted abstract disk cache (index functions are under contract in package store)
+//@   modifies nothing
+//@ func store.Storer.GetOffsetRange(self) (l, r)
+//@   trusted abstract disk cache
+//@   modifies nothing
+
+//@ func StoreChannel.StartPoint
+//@   arith int
+//@   properties C16 C06
+//@   requires nonnil: sc != nil && sc.storer != nil
+//@   modifies heap, stId, stLatest
+//@   ensures asked_without_ids_the_cache_reports_its_own_label_and_end_even_when_it_is_empty: len(ids) == 0 ==> result1 == nil && result0.RunId == old(stId) && result0.Offset == old(stLatest)
+//@   ensures a_position_is_the_caches_own_or_none: result1 == nil ==> result0.RunId == stId || (result0.RunId == "?" && result0.Offset == 0 - 1)
+
+//@ func StoreChannel.IsValidOffset
+//@   arith int
+//@   properties C16 C06 C05
+//@   requires nonnil: sc != nil && sc.storer != nil
+//@   modifies nothing
+//@   ensures an_offset_of_another_history_is_never_valid: off.RunId != "?" && off.RunId != stId ==> !result
+
+//@ func StoreChannel.GetOffsetRange
+//@   arith int
+//@   properties C16 C06 C05
+//@   requires nonnil: sc != nil && sc.storer != nil
+//@   modifies nothing
+//@   ensures no_range_for_another_history: runId != stId ==> result0 == 0 - 1 && result1 == 0 - 1
